@@ -1,6 +1,7 @@
 /-
   Evaluation of protocol requests against the model (DESIGN.md A.3).
 -/
+import OptreeModel.Model.STree
 import OptreeModel.Model.Sexp
 import OptreeModel.Model.Ops
 import OptreeModel.Model.OrderSM
@@ -305,6 +306,10 @@ def evalOp (st : DriverState) : Sexp → Res Sexp
   | .list [.atom "spec", s] => do
       let sp ← evalSpec st s
       pure (encOk [encSpec sp])
+  | .list [.atom "is_enc", s] => do
+      -- is the node array the post-order encoding of a well-formed shape? (Model/STree.lean)
+      let sp ← evalSpec st s
+      pure (encOk [Sexp.bool (isEncoding sp.nodes)])
   | .list [.atom "paths", s] => do
       let sp ← evalSpec st s
       let ps ← Res.ofExcept (paths sp)
@@ -485,13 +490,20 @@ def evalOp (st : DriverState) : Sexp → Res Sexp
       let s0 := aInit flags.length
       let s1 := arun fresh internals s0 ops
       pure (encOk [.atom (if observe internals s1 == observe internals s0 then "same" else "changed")])
-  | .list (.atom "dcpart" :: isClass :: already :: nsEmpty :: fields) => do
+  | .list (.atom "dcpart" :: isClass :: already :: nsEmpty ::
+      .list [.atom "opts", via, slots, frozen, kwonly, order] :: fields) => do
       let decField : Sexp → Dec FieldSpec := fun x => match x with
-        | .list [.str n, i, p] => do let i ← decBool i; let p ← decBool p; pure ⟨n, i, p⟩
+        | .list [.str n, i, p, k, d, inh] => do
+            let i ← decBool i; let p ← decBool p; let k ← decBool k; let d ← decNat d; let inh ← decBool inh
+            pure ⟨n, i, p, k, d, inh⟩
         | _ => .error "field expected"
+      let opts : DcOpts := {
+        via := (← Res.ofDec (decNat via)), slots := (← Res.ofDec (decBool slots)),
+        frozen := (← Res.ofDec (decBool frozen)), kwOnly := (← Res.ofDec (decBool kwonly)),
+        order := (← Res.ofDec (decBool order)) }
       let c : DcCall := {
         fields := (← Res.ofDec (decList decField fields)), alreadyDecorated := (← Res.ofDec (decBool already)),
-        nsEmpty := (← Res.ofDec (decBool nsEmpty)), isClass := (← Res.ofDec (decBool isClass)) }
+        nsEmpty := (← Res.ofDec (decBool nsEmpty)), isClass := (← Res.ofDec (decBool isClass)), opts := opts }
       let (ch, md) ← Res.ofExcept (dcPartition c)
       pure (encOk [l (ch.map Sexp.str), l (md.map Sexp.str)])
   | .list (.atom "sorttwin" :: keys) => do
